@@ -226,6 +226,22 @@ def random_cases(family, rng, count):
             xs2, ys2 = rseries(rng, 2, 12, den=2)
             out.append({"fn": "trend", "x": [R(v) for v in xs2], "y": [R(v) for v in ys2], "c": c, "normalized": rng.random() < 0.5,
                         "container": rng.choice(["array", "list", "series"])})
+            # the same request after the series was made denser than its reference and then cut (seed C14i: the span of the
+            # reference used for the normalised argument)
+            n2 = len(xs2)
+            m = rng.choice([5, 9, 17])
+            sp2 = xs2[-1] - xs2[0]
+            gx = [xs2[0] + sp2 * Fraction(j, m - 1) for j in range(m)]
+            def lin2(t):
+                k = min(max(i for i in range(n2) if xs2[i] <= t), n2 - 2)
+                return ys2[k] + (ys2[k + 1] - ys2[k]) * (t - xs2[k]) / (xs2[k + 1] - xs2[k])
+            gy = [lin2(t) for t in gx]
+            a2 = rng.randrange(0, m - 2)
+            b2 = rng.randrange(a2 + 2, m + 1)
+            if n2 >= 4 and (a2, b2) != (0, m) and max(v.denominator for v in gx + gy) <= 1024:
+                out.append({"fn": "trend", "x": [R(v) for v in gx[a2:b2]], "y": [R(v) for v in gy[a2:b2]], "rx0": [R(v) for v in xs2], "ry0": [R(v) for v in ys2],
+                            "pre": [{"k": "interpolate_n", "n": m, "method": "linear"}, {"k": "truncate_index", "start": a2, "stop": b2}],
+                            "c": c, "normalized": rng.random() < 0.8})
             if rng.random() < 0.4:
                 # integer abscissae in a (possibly narrow / unsigned) integer array and a callable written with integer coefficients
                 ix, t = [], rng.choice([0, 1, 3, 100, 200])
